@@ -36,7 +36,7 @@ PANICKING = [
     (r'^<chrono::(time_delta::)?TimeDelta as core::ops::(Add|Sub)>::(add|sub)$', 'chrono-delta-arith'),
     (r'^chrono::(datetime::)?DateTime::<.*>::(naive_local|date)$', 'chrono-naive_local'),
     (r'^chrono::(offset::)?TimeZone::(from_utc_date|from_utc_datetime)$', 'chrono-from_utc'),
-    (r'^alloc::slice::<impl \[T\]>::sort_by$', 'sort-by'),
+    (r'^alloc::slice::<impl \[T\]>::(sort_by|sort_by_key|sort|sort_unstable|sort_unstable_by|sort_unstable_by_key|sort_by_cached_key)$', 'sort-by'),
     (r'^alloc::string::ToString::to_string$|^<T as alloc::string::ToString>::to_string$', 'to-string'),
 ]
 # documented as panicking only on capacity overflow / allocation failure (declared assumption, not obligations)
@@ -49,7 +49,7 @@ CAPACITY_ONLY = re.compile(r'^alloc::(vec::Vec|string::String)::<?.*>?::(push|pu
 DOC_PANIC_BENIGN = re.compile(
     r'chrono::Datelike>::(day|month|year)$'                      # doc examples use unwrap(); the accessor itself is total
     r'|core::iter::Enumerate<.*> as core::iter::Iterator>::next$'   # index overflow only after usize::MAX items
-    r'|core::iter::(traits::iterator::)?Iterator::(enumerate|sum)$' # lazily built adaptor / sum of bounded lengths
+    r'|core::iter::(traits::iterator::)?Iterator::(enumerate|sum|position|rposition|count|last|nth|skip|take|step_by|zip|chain|rev|max|min|max_by_key|min_by_key)$|Iterator>::(position|rposition|count|nth)$' # adaptors / searches: documented panics are index overflow beyond usize::MAX items only
     r'|^regex::(regex::string::)?Regex::(captures|captures_iter|find|find_iter|is_match)$'  # panics only on internal bugs (documented as such)
     r'|_serde::de::MapAccess::next_value$'                       # configuration loading, not evaluation
     r'|core::cell::RefCell<.*> as core::clone::Clone>::clone$'   # covered by the refcell-free discipline (no RefMut is live across calls)
@@ -72,18 +72,46 @@ def classify_callee(path):
 
 
 class Ob:
-    __slots__ = ('body', 'bid', 'term', 'kind', 'what', 'detail', 'loc')
+    __slots__ = ('body', 'bid', 'term', 'kind', 'what', 'detail', 'loc', 'owner')
 
     def __init__(self, body, bid, term, kind, what, detail=''):
         self.body, self.bid, self.term, self.kind, self.what, self.detail = body, bid, term, kind, what, detail
         self.loc = term['loc']
+        self.owner = None
 
-    def key(self):
-        return '%s/%s/%s' % (fn_key(self.body.path), self.kind, re.sub(r'\s+', '_', self.detail)[:80])
+    def key(self, fn_path=None):
+        return '%s/%s/%s' % (fn_key(fn_path or self.body.path), self.kind, re.sub(r'\s+', '_', self.detail)[:80])
+
+    def keys(self):
+        """own key first, then the keys the site would have had inside each function that owns this body (a closure's
+        creator, the single caller of a private helper, ...): reviewed / known entries written for the owner keep applying
+        when code is moved into a helper or a closure"""
+        out = [self.key()]
+        for o in (self.owner or []):
+            k = self.key(o)
+            if k not in out:
+                out.append(k)
+        return out
 
 
 def enumerate_obligations(ctx, body):
     """all panic obligations of one body (normal, reachable blocks only)"""
+    out = _enumerate_obligations(ctx, body)
+    chain = []
+    if getattr(ctx, 'cg', None) is not None:
+        cur = body.path
+        for _ in range(4):
+            nxt = ctx.cg.owner_step(cur)
+            if nxt is None or nxt == cur or nxt in chain:
+                break
+            chain.append(nxt)
+            cur = nxt
+    for o in out:
+        o.owner = chain
+    return out
+
+
+def _enumerate_obligations(ctx, body):
     out = []
     reach = body.reachable_blocks()
     for bid in sorted(reach):
@@ -818,6 +846,9 @@ class Discharger:
         r = strip(b.expr(ob.term['args'][1]))
         if r[0] == 'const' and isinstance(r[2], int) and 2 <= r[2] <= 36:
             return ('const', 'radix %d is within 2..=36' % r[2])
+        iv = interval(b, b.expr(ob.term['args'][1]), env=self.env)
+        if iv is not None and 2 <= iv[0] and iv[1] <= 36:
+            return ('interval', 'radix in [%d, %d] (all call sites pass constants within 2..=36)' % iv)
         return None
 
     def d_int_abs(self, ob):
@@ -842,6 +873,16 @@ class Discharger:
 
     def d_sort_by(self, ob):
         b = ob.body
+        name = ob.term['callee']['path'].rsplit('::', 1)[1]
+        gen = ob.term['callee'].get('gen', [])
+        if name in ('sort', 'sort_unstable') or 'key' in name:
+            # sort / sort_by_key: the order is Ord of the element / key type; for primitive integers it is total
+            tys = gen[1:2] if 'key' in name else gen[0:1]
+            if tys and tys[0] in INT_RANGE:
+                return ('ord-total', '%s orders by the primitive type %s, a total order' % (name, tys[0]))
+            return None
+        if len(ob.term['args']) < 2:
+            return None
         cl = [x for x in walk(b.expr(ob.term['args'][1])) if x[0] == 'aggr' and x[1].startswith('closure:')]
         if cl:
             cb = self.facts.bodies.get(cl[0][1][8:])
@@ -1194,6 +1235,25 @@ def value_annotations(ctx):
     # W3: constructors
     ok = True
     allowed = re.compile(r'^(config\.timezone_offset|self\.timezone_offset|Option::unwrap\(tools::get_timezone\(.*\)\)\.#?1|.*tools::get_timezone\(.*\) as Some\.0\.#?1|.*parse_timezone\(.*\) as Some\.0\.#?1|.*\.offset|.* as Timezone\.1|.* as Some\.0\.#?1\.offset|\$?offset|\$?target_offset|0)$')
+    why = 'zone offsets in minutes (table + GMT form)'
+    # inductive check: assuming every annotated source is in range, every value stored as an offset is in range (interval
+    # evaluation with the annotation as environment; a render that matches the frozen shapes is accepted as before)
+    tmp = {'fields': {f: (rng, why) for f in ('types::TimeOffset.offset', 'config::SmartCalcConfig.timezone_offset')},
+           'calls': {('tokinizer::tools::get_timezone', '1'): (rng, why), ('tools::parse_timezone', '1'): (rng, why)}}
+
+    class _D:
+        pass
+    probe = Discharger.__new__(Discharger)
+    probe.ctx, probe.facts, probe.config, probe.annot = ctx, ctx.facts, ctx.config, tmp
+    probe.env = {'__leaf__': probe.leaf_interval}
+    probe._guard_cache, probe._fam_cache, probe.group_max = {}, {}, {}
+
+    def in_range(b, operand):
+        try:
+            iv = interval(b, b.expr(operand), env=probe.env)
+        except Exception:
+            iv = None
+        return iv is not None and rng[0] <= iv[0] and iv[1] <= rng[1]
     for b in ctx.facts.src_bodies():
         for i in b.normal_blocks:
             for st in b.blocks[i]['stmts']:
@@ -1201,7 +1261,7 @@ def value_annotations(ctx):
                     names = st.get('fields', [])
                     if 'offset' in names:
                         t = render(b.expr(st['ops'][names.index('offset')]))
-                        if not allowed.match(t):
+                        if not allowed.match(t) and not in_range(b, st['ops'][names.index('offset')]):
                             ok = False
                             out['witness'].append('W3 failed: TimeOffset.offset built from %s in %s' % (t[:80], fn_key(b.path)))
                 if st['k'] == 'assign' and st['lhs']['proj'] and isinstance(st['lhs']['proj'][-1], dict) and st['lhs']['proj'][-1].get('field') == 'config::SmartCalcConfig.timezone_offset':
@@ -1212,7 +1272,6 @@ def value_annotations(ctx):
     pt = ctx.facts.one(r'^tools::parse_timezone$')
     if not ok:
         return out
-    why = 'zone offsets in minutes (table + GMT form)'
     for f in ('types::TimeOffset.offset', 'config::SmartCalcConfig.timezone_offset'):
         out['fields'][f] = (rng, why)
     out['calls'][('tokinizer::tools::get_timezone', '1')] = (rng, why)
